@@ -299,9 +299,16 @@ def run_case(case):
             orphaned = [c for c in vnames if rec["hosts"].get(c) in leaving]
             snaps = [s for s in snapshots if s["event"] == ei]
             if not snaps:
-                return Outcome(False, "event %d (%r leave, orphaned %r): no repair completion was reported within the "
-                                      "run [%s]" % (ei, sorted(leaving), orphaned, ctx), nontrivial, labels,
-                               info={"kind": "no-repair-completion"})
+                # the property speaks about the state "once the repair for that event completes": a repair that was
+                # never reported complete within the run is counted (liveness is not part of C27), not asserted
+                if agent_fatal:
+                    a, et, msg, frame = agent_fatal[0]
+                    return Outcome(False, "event %d (%r leave, orphaned %r): the thread of agent %s died with %s: %s at "
+                                          "%s and the repair was never reported complete [%s]" % (
+                                              ei, sorted(leaving), orphaned, a, et, msg, frame, ctx), nontrivial, labels,
+                                   info={"kind": "agent-died", "phase": "repair", "exc": et, "frame": frame})
+                labels.append("inconclusive:repair-never-reported-complete")
+                return Outcome(True, "", False, labels, info={"inconclusive": True})
             s = snaps[-1]
             if "error" in s:
                 return Outcome(True, "", False, labels + ["inconclusive:snapshot-error"], info={"inconclusive": True})
